@@ -5,7 +5,6 @@
 package main
 
 import (
-	"crypto/cipher"
 	"fmt"
 	"math/rand"
 	"os"
@@ -39,13 +38,11 @@ func main() {
 		if a[0] == "seal" {
 			sm4.VerifSealAsm(&enc[0], ts, &dst[0], nonce, pt, aad, &temp[0])
 		} else {
-			// an authentic message, produced through the public API
-			blk, _ := sm4.NewCipher(key)
-			var g cipher.AEAD
-			g, _ = blk.(interface {
-				NewGCM(int, int) (cipher.AEAD, error)
-			}).NewGCM(nl, ts)
-			ct := g.Seal(nil, nonce, pt, aad)
+			// an authentic message, produced by the sealing routine itself (its agreement with the
+			// specification is C06's business; here only the instruction sequence of openAsm matters)
+			ct := make([]byte, tl+ts)
+			var t2 [32]byte
+			sm4.VerifSealAsm(&enc[0], ts, &ct[0], nonce, pt, aad, &t2[0])
 			flip := -1 // optional 7th argument: index of a tag byte to corrupt (a refused message)
 			if len(a) > 6 {
 				flip = atoi(a[6])
